@@ -253,8 +253,17 @@ pub trait Translator {
             {
                 // get the entry index for the first/head block in the successor
                 let (block_entry, _) = block_indices[successor_address];
-                // check for duplicate edges
-                if control_flow_graph.edge(block_exit, block_entry).is_ok() {
+                // Two successors leading to the same block (e.g. a conditional
+                // branch to the next instruction) share one edge, which is
+                // taken when either condition holds.
+                if let Ok(edge) = control_flow_graph.edge_mut(block_exit, block_entry) {
+                    if let Some(existing) = edge.condition_mut() {
+                        *existing = match successor_condition {
+                            Some(condition) if *condition == *existing => continue,
+                            Some(condition) => Expression::or(existing.clone(), condition.clone())?,
+                            None => expr_const(1, 1),
+                        };
+                    }
                     continue;
                 }
                 match successor_condition {
